@@ -50,7 +50,7 @@ def accepts(card, s):
         return False
 
 
-def luhn(L, opt, seps=None, base=48):
+def luhn(L, opt, seps=None, base=48, prior=False):
     mode = '-O' if opt else 'normal'
 
     def h():
@@ -69,10 +69,17 @@ def luhn(L, opt, seps=None, base=48):
             shown = SymStr(cells)
 
         def rp(extra=None):
-            a = {'kind': 'luhn', 'mode': mode, 'args': {'digits': concretize_str(shown, ev), 'what': what}}
+            a = {'kind': 'luhn', 'mode': mode, 'args': {'digits': concretize_str(shown, ev), 'what': what, 'prior': prior}}
             a['args'].update(extra or {})
             return a
         core.set_fallback(rp, 'C15/concretised')
+        if prior:
+            # the process has completed and validated other numbers before: the same digits with one and with two more digits behind them
+            # (same leading digits, lengths of both parities)
+            for tail in ('7', '70'):
+                longer = SymStr(list(shown.cells) + list(tail))
+                with guard('earlier calls', 'C15/exception', rp, allow=(AssertionError,)):
+                    accepts(card, card.add_check_digit(longer))
         if what == 'digit':
             with guard('calculate_check_digit', 'C15/exception', rp):
                 cd = card.calculate_check_digit(shown)
@@ -144,6 +151,9 @@ def obligations(tier):
             obs.append(Ob('luhn/%s-digits/len%02d' % (name, L), luhn(L, False, None, base), 300,
                           'all strings of %d decimal digits written in %s digits (digits for str.isdigit() and int(), hence for the library): same four checks' % (L, name),
                           _funcs))
+    for L in ((7, 15, 16) if q else (6, 7, 8, 12, 15, 16, 18, 19)):
+        obs.append(Ob('luhn/after-longer-numbers/len%02d' % L, luhn(L, False, prior=True), 600,
+                      'the four checks on all digit strings of length %d in a process that has completed and validated the same digits followed by "7" and by "70" before' % L, _funcs))
     for L, sep in ((8, ('-', 4)), (12, (' ', 4)), (15, ('-', 5)), (10, (' ', 3)), (15, ('-', 4)), (7, ('/', 2))):
         obs.append(Ob('luhn/separators/len%02d' % L, luhn(L, False, sep), 300, '%d digits with %r every %d digits' % (L, sep[0], sep[1]), _funcs))
     return obs
